@@ -80,15 +80,15 @@ def custom : Parser (Out Bmp) :=
   Parser.bind sectionHeader fun pdata =>
   Parser.bind (guard (decide (pdata.1 = tagData ∧ pdata.2 = paletteSectionSize))) fun _ =>
   -- CreateIndexed(uint16_t(bitDepth), pixelWidth, int32_t(pixelHeight * -1))
-  match create1 (bd % W16) pw (Op2.i32 ((ph * (W32 - 1)) % W32)) with
+  match createShape (bd % W16) pw (Op2.i32 ((ph * (W32 - 1)) % W32)) with
   | .fault g => Parser.pure (.fault g)
   | .err e => Parser.fail e
   | .ok bm =>
-    Parser.bind (many Bmp.Rd.color bm.palette.length) fun pal =>
+    Parser.bind (many Bmp.Rd.color bm.npal) fun pal =>
     Parser.bind sectionHeader fun xdata =>
     Parser.bind (guard (decide (xdata.1 = tagData ∧ xdata.2 = pixelHeaderLength ph))) fun _ =>
-    Parser.bind (take bm.pixels.length) fun px =>
-    let f := swapRedAndBlue { bm with palette := pal, pixels := px }
+    Parser.bind (take bm.npix) fun px =>
+    let f := swapRedAndBlue { bh := bm.bh, ih := bm.ih, palette := pal, pixels := px }
     match validateTs f with
     | .ok _ => Parser.pure (.ok f)
     | .err e => Parser.fail e
